@@ -5,10 +5,58 @@ from . import core
 RULE = ("N goroutines (N in {2, 8, 16}; thorough: every N in 2..16), each with its own simulated BMC, in-memory transport, "
         "connection, sessions and a seeded random workload (session-less command, 1-2 handshakes with and without cipher-suite "
         "discovery, 3-10 in-session commands with retry scripts, SDR retrieval, DCMI enumeration, close), run concurrently in a "
-        "binary built with -race and then one after the other; predicates: the race detector reports nothing; for every goroutine "
-        "the results of all calls and the BMC's decoded view of every datagram (kind, accepted, session ID, sequence number, NetFn, "
-        "command, request data, completion code) are identical to the solo run.  Theorem part: the frame argument over the "
+        "binary built with -race and then once more one after the other in that process; the baseline is each workload ALONE IN A FRESH "
+        "PROCESS; predicates: the race detector reports nothing; for every goroutine the results of all calls, the negotiated algorithms, "
+        "the Open Session proposal and the BMC's decoded view of every datagram (kind, accepted, session ID, sequence number, NetFn, "
+        "command, request data, completion code) are identical to the baseline in both phases.  Theorem part: the frame argument over the "
         "regenerated write-footprint of package-level state.  distinct by (N, seed)")
+
+
+def solo_baseline(wseeds):
+    """each workload alone, in a fresh process of the (non-race) harness"""
+    from concurrent.futures import ThreadPoolExecutor
+    binh = os.path.join(core.HARNESS_DIR, "harness")
+
+    def one(ws):
+        p = subprocess.run([binh], input="c19solo %d\n" % ws, stdout=subprocess.PIPE, stderr=subprocess.PIPE, text=True, timeout=300)
+        if p.returncode != 0:
+            return ws, None
+        return ws, json.loads(p.stdout.strip())["obs"]
+    with ThreadPoolExecutor(16) as ex:
+        return dict(ex.map(one, wseeds))
+
+
+def first_diff(a, b):
+    la, lb = a.split("\n"), b.split("\n")
+    for k in range(max(len(la), len(lb))):
+        x = la[k] if k < len(la) else ""; y = lb[k] if k < len(lb) else ""
+        if x != y:
+            return {"step": k, "alone": x[:1500], "here": y[:1500]}
+    return None
+
+
+def judge(ch, n, sd, p, base):
+    desc = {"kind": "c19", "n": n}
+    if "DATA RACE" in p.stderr or p.returncode == 66:
+        ch.violation(desc, {"n": n, "seed": sd, "what": "the race detector reported a data race", "report": p.stderr[:3000]})
+        return 0
+    if p.returncode != 0:
+        ch.violation(desc, {"n": n, "seed": sd, "what": "harness exited with %d" % p.returncode, "stderr": p.stderr[-2000:]})
+        return 0
+    r = json.loads(p.stdout.strip())
+    differing = []
+    for i in range(n):
+        alone = base.get(sd * 100 + i)
+        for phase in ("concurrent", "after"):
+            if alone is None or r[phase][i] != alone:
+                differing.append({"goroutine": i, "phase": phase, "workload_seed": sd * 100 + i,
+                                  "first_difference": first_diff(alone or "", r[phase][i])})
+    if differing:
+        ch.violation(desc, {"n": n, "seed": sd, "what": "a connection's observations differ from the same workload run alone in a fresh process "
+                            "(phase concurrent = next to the other goroutines; after = one after the other in the process that ran them)",
+                            "differing": differing[:4], "count": len(differing)})
+    ch.sample({"n": n, "seed": sd, "steps": r["steps"], "differing": len(differing)})
+    return r["steps"]
 
 
 def run(ch, build):
@@ -18,27 +66,18 @@ def run(ch, build):
         ch.corr_break({"kind": "build"}, {"broken": "race-detector build of the harness failed", "log": out[-2000:]})
         return ch.finish(rule=RULE)
     ns = [2, 8, 16] if ch.quick() else list(range(2, 17))
-    seeds = range(ch.seed, ch.seed + (3 if ch.quick() else 50))
+    seeds = list(range(ch.seed, ch.seed + (3 if ch.quick() else 50)))
     binr = os.path.join(core.HARNESS_DIR, "harness_race")
+    base = solo_baseline(sorted({sd * 100 + i for sd in seeds for i in range(max(ns))}))
     total_steps = 0
     for n in ns:
         for sd in seeds:
             p = subprocess.run([binr], input="c19 %d %d\n" % (n, sd), stdout=subprocess.PIPE, stderr=subprocess.PIPE, text=True, timeout=600,
                                env=dict(os.environ, GORACE="halt_on_error=0 exitcode=66"))
             ch.note_case("c19-run", "%d|%d" % (n, sd))
-            desc = {"kind": "c19", "n": n}
-            if "DATA RACE" in p.stderr or p.returncode == 66:
-                ch.violation(desc, {"n": n, "seed": sd, "what": "the race detector reported a data race", "report": p.stderr[:3000]})
-                continue
-            if p.returncode != 0:
-                ch.violation(desc, {"n": n, "seed": sd, "what": "harness exited with %d" % p.returncode, "stderr": p.stderr[-2000:]})
-                continue
-            r = json.loads(p.stdout.strip())
-            total_steps += r["steps"]
-            if r["differing"]:
-                ch.violation(desc, {"n": n, "seed": sd, "what": "a goroutine's observations differ from its solo run", "result": r})
-            ch.sample({"n": n, "seed": sd, "steps": r["steps"], "differing": r["differing"]})
+            total_steps += judge(ch, n, sd, p, base)
     ch.extra["goroutine_steps"] = total_steps
+    ch.extra["fresh_process_baselines"] = len(base)
     return ch.finish(rule=RULE, assumptions=[
         "freedom from data races in the Go memory model is not a theorem here: it is what the race detector observed on the schedules that occurred",
         "IVs and the console random come from crypto/rand and are not compared (the BMC's decrypted view is)"])
@@ -50,7 +89,10 @@ def replay(ch, build, path):
     p = subprocess.run([os.path.join(core.HARNESS_DIR, "harness_race")], input="c19 %d %d\n" % (d["n"], d["seed"]),
                        stdout=subprocess.PIPE, stderr=subprocess.PIPE, text=True, timeout=600)
     print(p.stdout[:2000]); print(p.stderr[:2000])
-    bad = "DATA RACE" in p.stderr or p.returncode != 0 or json.loads(p.stdout.strip())["differing"]
+    bad = "DATA RACE" in p.stderr or p.returncode != 0
+    if not bad:
+        rr = json.loads(p.stdout.strip()); base = solo_baseline([d["seed"] * 100 + i for i in range(d["n"])])
+        bad = any(rr[ph][i] != base[d["seed"] * 100 + i] for ph in ("concurrent", "after") for i in range(d["n"]))
     if bad:
         print("VIOLATION property=C19 replay=%s" % path)
     return 1 if bad else 0
